@@ -93,5 +93,8 @@ Emit == (NOps >= 1) =>
   PrintT(<<"CASE", ToJson([hist |-> hist, last |-> heap[Len(heap)],
                            err |-> IsErrM(meaning[Len(meaning)]),
                            den |-> IF IsErrM(meaning[Len(meaning)]) THEN ZeroMat(0, 0) ELSE meaning[Len(meaning)],
-                           atoms |-> [k \in 1..NAtoms |-> heap[k]] ])>>)
+                           atoms |-> [k \in 1..NAtoms |-> heap[k]],
+                           \* every object must still denote its meaning after the whole history (no aliasing / mutation)
+                           dens |-> [k \in 1..Len(heap) |-> IF IsErrM(meaning[k]) THEN ZeroMat(0, 0) ELSE meaning[k]],
+                           errs |-> [k \in 1..Len(heap) |-> IsErrM(meaning[k])] ])>>)
 =============================================================================
